@@ -1,9 +1,76 @@
-import Driver.Codec
-/-! Protocol ops of the `Example` cluster: decode, call the model, print. -/
+import Driver.OpsDirective
+import Driver.Ops
+import XdocModel.Example
+/-!
+Protocol ops of the `Example` cluster (the run loop).
+
+`run <cfg> <sat> (<execLines> <want> <directives> <result>)*`
+* cfg = `<raise|ret>;<importOk 1|0>;<pytestMode 1|0>;<defaults NAME=1,…|~>`
+* want = `N` (None) or an encoded list of lines
+* result (what executing the part did in the real run; `none` if the real run never executed it):
+  `ok:<stdout>:<ev>` (ev = `N` not evaled | `R` repr raises | `V<repr>`), `raised:<stdout>:<excLine>:<tb|N>`,
+  `compile:<lineno|N>`, `exit:<stdout>:<excLine>`, `loop`, `none`
+Answer: `<ending> <pfs> <failkind|-> <failidx|-> <tb|-> skipped=<nats> executed=<nats> unmatched=<list>`
+A part the model executes although the real run gave no result for it answers `no-oracle`.
+-/
 namespace Xdoc.Driver
-open Xdoc
+open Xdoc Py
+
+def decResult (f : String) : Option ExecResult :=
+  match f.splitOn ":" with
+  | ["ok", out, ev] => some (.ok (decStr out) (decEval ev))
+  | ["raised", out, line, tb] => some (.raised (decStr out) (decStr line) (if tb == "N" then none else some tb.toNat!))
+  | ["compile", ln] => some (.compileError (if ln == "N" then none else some ln.toNat!))
+  | ["exit", out, line] => some (.exit (decStr out) (decStr line))
+  | ["loop"] => some .existingLoop
+  | _ => none
+
+def decParts : List String → List (RunPart × Option ExecResult)
+  | ex :: want :: dirs :: res :: rest =>
+    ({ part := { execLines := decStrList ex, wantLines := if want == "N" then none else some (decStrList want) },
+       directives := decDirectives dirs }, decResult res) :: decParts rest
+  | _ => []
+
+def failKindName : FailKind → String
+  | .directive => "directive" | .importError => "import" | .compile => "compile" | .gotWant => "gotwant"
+  | .reprError => "repr" | .exception => "exception" | .existingLoop => "loop"
+
+def endName : RunEnd → String
+  | .returned => "returned" | .raised k => "raised:" ++ failKindName k | .escaped => "escaped"
+  | .pytestSkip => "pytestskip"
 
 def opsExample : List String → Option String
+  | "run" :: cfg :: sat :: rest =>
+    match cfg.splitOn ";" with
+    | [oe, imp, pyt, defaults] =>
+      let parts := decParts rest
+      let cfg : RunCfg := { onError := if oe == "raise" then .raise else .ret, importOk := imp == "1",
+                            pytestMode := pyt == "1", defaults := decBoolAssoc defaults }
+      -- Env = Bool: becomes false when the model executes a part without a recorded result
+      let results := parts.map (·.2)
+      let sem : Bool → Nat → RunPart → ExecResult × Bool := fun ok i _ =>
+        match results[i]? with
+        | some (some r) => (r, ok)
+        | _ => (.ok [] .notEvaled, false)
+      let out := run (decSat sat) sem cfg true (parts.map (·.1))
+      if !out.state.env then some "no-oracle" else
+      let s := out.summary
+      let fl := out.state.failure
+      some (" ".intercalate [
+        endName out.ending,
+        encBool s.passed ++ encBool s.failed ++ encBool s.skipped,
+        (fl.map (fun f => failKindName f.kind)).getD "-",
+        (fl.map (fun f => toString f.partIdx)).getD "-",
+        (fl.map (fun f => toString f.tbLineno)).getD "-",
+        "skipped=" ++ encNatList out.state.skipped,
+        "executed=" ++ encNatList out.state.executed,
+        "unmatched=" ++ encStrList out.state.unmatched])
+    | _ => none
+  /- part_check <flags> <want> <stdout> <ev> <unmatched list> -/
+  | ["part_check", f, want, out, ev, unm] =>
+    some (match partCheck (decFlags f) (decStr want) (decStr out) (decEval ev) (decStrList unm) with
+      | .ok => "ok" | .differs => "differs" | .reprError => "reprerror")
+  | ["has_any_code", ex] => some (encBool ({ execLines := decStrList ex : Part }).hasAnyCode)
   | _ => none
 
 end Xdoc.Driver
